@@ -1959,9 +1959,44 @@ class Enumerator:
             else:
                 yield s, ast.Constant(value=None), None
 
+    def _partition_of(self, val):
+        """(subject, separator constant) when val is / names the result of
+        <subject>.partition(<const str>)"""
+        d = val
+        if isinstance(val, ast.Name) and val.id.startswith('SYM_'):
+            d = self.defs.get(val.id)
+        if isinstance(d, ast.Call) and method_call(d, 'partition') and len(
+                d.args) == 1 and not d.keywords and isinstance(
+                    d.args[0], ast.Constant) and isinstance(
+                        d.args[0].value, str) and d.args[0].value:
+            return method_call(d)[0], d.args[0]
+        return None
+
     def _assign_target(self, target, val, st, line, raw_value=None):
         if isinstance(target, ast.Name):
             st.env[target.id] = val
+        elif isinstance(target, (ast.Tuple, ast.List)) and len(
+                target.elts) == 3 and self._partition_of(val) is not None \
+                and not any(isinstance(t, ast.Starred)
+                            for t in target.elts):
+            # head, sep, tail = s.partition(':') in terms of the one split
+            # it performs: s.split(':', 1)[0], ':' if found else '', [1]
+            subj, sepc = self._partition_of(val)
+            sp = self.fresh(ast.Call(
+                func=ast.Attribute(value=subj, attr='split', ctx=ast.Load()),
+                args=[sepc, ast.Constant(value=1)], keywords=[]), 'v')
+            found = ast.Compare(left=sepc, ops=[ast.In()],
+                                comparators=[subj])
+            parts = [
+                ast.Subscript(value=sp, slice=ast.Constant(value=0),
+                              ctx=ast.Load()),
+                ast.IfExp(test=found, body=sepc,
+                          orelse=ast.Constant(value='')),
+                ast.Subscript(value=sp, slice=ast.Constant(value=1),
+                              ctx=ast.Load())]
+            for t, v in zip(target.elts, parts):
+                self._assign_target(t, ast.fix_missing_locations(
+                    ast.copy_location(v, target)), st, line)
         elif isinstance(target, (ast.Tuple, ast.List)):
             ra = self.prog.record_args(self._stack[-1].module, val) \
                 if isinstance(val, ast.Call) else None
